@@ -505,3 +505,28 @@ Proof. exact DescP.DescEx3.unanchored_and_prefix_only. Qed.
 Print Assumptions C12_descriptor_unanchored_and_prefix_only.
 
 End C12Desc.
+
+(* ---------- taproot control blocks (model Model/Taproot.v, parse_cb; codec theorems under C16) ---------- *)
+Module C12ControlBlock.
+From GE Require Import Model.Taproot Proofs.ControlBlockDec.
+
+(* accepted byte strings are 33 + 32 k bytes long with k <= 128 *)
+Theorem C12_controlblock_accepts_shape : forall liftable bs cb,
+  GE.Model.Taproot.parse_cb liftable bs = Some cb -> exists k, (k <= 128)%nat /\ length bs = (33 + 32 * k)%nat.
+Proof. exact parse_cb_accepts_shape. Qed.
+Print Assumptions C12_controlblock_accepts_shape.
+
+(* the format is not prefix-free: a strict prefix of an accepted control block is accepted only at a node boundary *)
+Theorem C12_controlblock_prefix_only_at_node_boundary : forall liftable pre suf cb cb',
+  GE.Model.Taproot.parse_cb liftable (pre ++ suf) = Some cb -> GE.Model.Taproot.parse_cb liftable pre = Some cb' ->
+  (length suf mod 32 = 0)%nat.
+Proof. exact controlblock_prefix_only_at_node_boundary. Qed.
+Print Assumptions C12_controlblock_prefix_only_at_node_boundary.
+
+(* every other cut is rejected *)
+Theorem C12_controlblock_prefix_rejected : forall liftable pre suf cb,
+  GE.Model.Taproot.parse_cb liftable (pre ++ suf) = Some cb -> (length suf mod 32 <> 0)%nat ->
+  GE.Model.Taproot.parse_cb liftable pre = None.
+Proof. exact controlblock_prefix_rejected. Qed.
+Print Assumptions C12_controlblock_prefix_rejected.
+End C12ControlBlock.
